@@ -140,6 +140,9 @@ func (t *Tape) SubRand(label string) *DetReader {
 	return &DetReader{s: NewSplitMix(t.Draw(1<<62, label) + 7)}
 }
 
+// NewDetReader returns a deterministic byte stream for a fixed seed.
+func NewDetReader(seed uint64) *DetReader { return &DetReader{s: NewSplitMix(seed)} }
+
 type DetReader struct {
 	s   *SplitMix64
 	buf []byte
